@@ -115,17 +115,19 @@ Definition enc_dev (d : dev) : list (list Z) :=
     [Z.of_N (d_hangle d); Z.of_N (d_vangle d); boolz (d_self_clean d); Z.of_N (d_rate d); Z.of_N (d_breeze d);
      boolz (d_ieco d); boolz (d_online d); boolz (d_supported d)] ].
 
-Definition W := world (list (list bytes)).
-
-Definition do_op (w : W) (op a : Z) : W * option exn :=
-  let sd (f : dev -> dev) : W * option exn := (upd_dev w f, None) in
+(* one step of a history over ANY peer: the five public operations and the setters, by op code *)
+Section History.
+  Variable P : Type.
+  Variable peer : P -> bytes -> P * list bytes.
+Definition do_op_gen (w : world P) (op a : Z) : world P * option exn :=
+  let sd (f : dev -> dev) : world P * option exn := (upd_dev w f, None) in
   let n := Z.to_N a in let b := zbool a in
   match op with
-  | 1 => refresh script_peer w
-  | 2 => apply_op script_peer w
-  | 3 => get_capabilities script_peer w
-  | 4 => toggle_display script_peer w
-  | 5 => start_self_clean script_peer w
+  | 1 => refresh peer w
+  | 2 => apply_op peer w
+  | 3 => get_capabilities peer w
+  | 4 => toggle_display peer w
+  | 5 => start_self_clean peer w
   | 10 => sd (fun d => d <| d_beep := b |>)
   | 11 => sd (fun d => d <| d_power := b |>)
   | 12 => sd (fun d => d <| d_target := n |>)
@@ -153,15 +155,22 @@ Definition do_op (w : W) (op a : Z) : W * option exn :=
   | _ => (w, None)
   end.
 
-Fixpoint do_ops (w : W) (ops : list Z) : W * Z :=
+Fixpoint do_ops_gen (w : world P) (ops : list Z) : world P * Z :=
   match ops with
   | op :: a :: t =>
-    match do_op w op a with
+    match do_op_gen w op a with
     | (w', Some e) => (w', exn_code e)
-    | (w', None) => do_ops w' t
+    | (w', None) => do_ops_gen w' t
     end
   | _ => (w, 0)
   end.
+End History.
+Arguments do_op_gen {P}. Arguments do_ops_gen {P}.
+
+Definition W := world (list (list bytes)).
+Definition do_op : W -> Z -> Z -> W * option exn := do_op_gen script_peer.
+Definition do_ops : W -> list Z -> W * Z := do_ops_gen script_peer.
+
 
 (* split a flat list of frames into exchanges of the given sizes *)
 Fixpoint group (sizes : list Z) (frames : list (list Z)) : list (list bytes) :=
